@@ -96,6 +96,44 @@ def disabled_identity(x0, x1):
     return ok
 
 
+DIS_FILE = "from inline_snapshot import snapshot\n\n\ndef test_0():\n    out.append(('t0', snapshot(v) is v))\n\n\ndef test_1():\n    out.append(('t1', snapshot(v) is v))\n    out.append(('t1', type(snapshot(w)) is int))\n    out.append(('t1', w == snapshot(c0)))\n\n\ndef test_2():\n    out.append(('t2', snapshot(v) is v))\n"
+
+
+def disabled_route_case(route, ci_idx, xfail_mask, w, c0):
+    """a session that is disabled (route 0: --inline-snapshot=disable, 1: a CI variable, 2: xdist, 3: xdist worker):
+    snapshot(v) is v in *every* test, whichever tests are marked xfail (real plugin hooks around each test)"""
+    world.install_plugin_shims()
+    v = [w, {1: c0}]
+    out = []
+    world.reset({"v": v, "w": w, "c0": c0, "out": out})
+    route = 0 if route == 0 else (1 if route == 1 else (2 if route == 2 else 3))
+    ci_var = None
+    if route == 1:
+        names = ["CI", "BUILD_ID", "GITHUB_ACTIONS", "TRAVIS", "TEAMCITY_VERSION"]
+        for k, name in enumerate(names):
+            if ci_idx == k:
+                ci_var = name
+    xf = {}
+    for i in range(3):
+        if xfail_mask[i]:
+            xf[f"test_{i}"] = ("own", ())
+    r = world.plugin_session(DIS_FILE, cli="disable" if route == 0 else None, ci_var=ci_var, nproc=(2 if route == 2 else ("worker" if route == 3 else None)), xfail=xf)
+    PathLog.record(f"disabled{route}{ci_var}{[bool(b) for b in xfail_mask]}{[b for _, b in out]}", nontrivial=True,
+                   sample={"route": ["disable flag", "CI variable", "xdist", "xdist worker"][route], "ci_var": ci_var, "xfail_tests": sorted(xf), "identity_results": [(n, bool(b)) for n, b in out]})
+    if r.usage_error is not None or r.written:
+        return False
+    if len(out) != 5:
+        return False
+    want_last = w == c0
+    for i, (n, b) in enumerate(out):
+        if i == 3:
+            if bool(b) != bool(want_last):
+                return False
+        elif not b:
+            return False
+    return True
+
+
 def mixed_ops_typeerror(first, second, x0, c0):
     """one snapshot used with two different operations raises TypeError instead of producing an answer."""
     ns = {"x0": x0, "c0": c0, "out": []}
@@ -109,7 +147,7 @@ def mixed_ops_typeerror(first, second, x0, c0):
     return isinstance(e, TypeError) and len(r.ns["out"]) == 1
 
 
-GLB = {"behaves_like": behaves_like, "getitem_like": getitem_like, "disabled_identity": disabled_identity, "mixed_ops_typeerror": mixed_ops_typeerror, "__name__": "harness.c06"}
+GLB = {"disabled_route_case": disabled_route_case, "behaves_like": behaves_like, "getitem_like": getitem_like, "disabled_identity": disabled_identity, "mixed_ops_typeerror": mixed_ops_typeerror, "__name__": "harness.c06"}
 
 
 def _bl(name, old_src, forms, xs_src, names, loop=False, twin=False):
@@ -172,6 +210,11 @@ def conditions(tier):
                           bounds=f"s = snapshot(dict with keys {old_keys}); s[k] == x for k in {keys}"))
     conds.append(Cond("disabled_identity", mkfn("disabled_identity_c", [("x0", "int"), ("x1", "int")], "return disabled_identity(x0, x1)", GLB), timeout=300, group="disabled",
                       bounds="state().active == False: snapshot(v) is v for a nested container and an int"))
+    for route in range(4):
+        name = f"disabled_route_{['flag', 'ci', 'xdist', 'xdist_worker'][route]}"
+        params = [("ci", "int"), ("xf0", "bool"), ("xf1", "bool"), ("xf2", "bool"), ("w", "int"), ("c0", "int")]
+        conds.append(Cond(name, mkfn(name, params, f"return disabled_route_case({route}, ci, [xf0, xf1, xf2], w, c0)", GLB, pre=["0 <= ci <= 4"]), timeout=600, group="disabled",
+                          bounds=f"session disabled by {['--inline-snapshot=disable', 'one of 5 CI variables', 'xdist (numprocesses=2)', 'an xdist worker config'][route]}; three tests, any subset of them marked xfail; snapshot(v) is v in every test"))
     opsn = ["eq", "le", "ge", "in", "gi"]
     for a in opsn:
         for b in opsn:
@@ -188,7 +231,7 @@ META = {
                "thorough": "same shapes, all form combinations for m=3, `in` with 3 observations"},
     "outside": "values that are not ints/containers of ints; comparisons that raise on the plain value; partially ordered values",
     "assumptions": ["no category flag and no review mode: state().update_flags is empty",
-                    "the flag/CI/xdist/xfail routes into the disabled state are decided in C04; here the disabled state itself is checked"],
+                    "which flag/environment combinations lead into the disabled state is decided in C04; here: the disabled state itself, and that it holds for every test of a session disabled by flag / CI / xdist whichever tests are xfail"],
 }
 
 world.prewarm(
